@@ -31,8 +31,16 @@ pub fn compute_min_utxo(
     let index = coercion::expr_into_number(&x)?;
     let overhead = 160;
 
-    let total_bytes = if let Some(body) = tx_body {
-        let utxo = body.outputs.get(index as usize).unwrap();
+    // the previous body might not have the requested output (eg: it belongs to a
+    // different tx or an optional output was dropped), in which case we fallback
+    // to the default estimation.
+    let utxo = tx_body.as_ref().and_then(|body| {
+        usize::try_from(index)
+            .ok()
+            .and_then(|index| body.outputs.get(index))
+    });
+
+    let total_bytes = if let Some(utxo) = utxo {
         let bytes = pallas::codec::minicbor::to_vec(utxo).unwrap().len() as i128;
         bytes + overhead
     } else {
